@@ -192,6 +192,21 @@ CHECKS = {
             {"run": "^TestC13DumpRestore$", "n": {"quick": 5000, "thorough": 50000}},
         ],
     },
+    "C17": {
+        "level": "exploration",
+        "technique": "property-based testing of generated call timelines on a fake clock with real goroutine contention; exact acceptance specification",
+        "design_ref": "DESIGN.md section 6 C17",
+        "text": "1-12 caller goroutines sleep to generated fake instants (many share an instant, others land 1ns before/at/after "
+                "the interval boundary) and call Invalidate; the exact acceptance rule per instant, exact-once in-order "
+                "execution of every callback per accepted call, non-interleaving of runs, and the error identities are "
+                "checked. Sampled search.",
+        "note": "Callbacks take zero fake time (they must not park while the Invalidator mutex is held: mutex waits are not "
+                "durable blocks in a synctest bubble). Contention at a shared instant is scheduled by the Go runtime.",
+        "assumptions": ["callbacks do not block"],
+        "jobs": [
+            {"run": "^TestC17Invalidator$", "n": {"quick": 15000, "thorough": 100000}},
+        ],
+    },
     "C18": {
         "level": "exploration",
         "technique": "model-based accounting: generated sequential histories and generated call-out schedules with a counting StatsTracker compared with the harness's own operation log",
